@@ -343,6 +343,9 @@ namespace pika::threads::detail {
         // support for suspension of pus
         std::vector<pu_mutex_type> suspend_mtxs_;
         std::vector<std::condition_variable> suspend_conds_;
+        // set by resume() for a sleeping worker, protected by the corresponding suspend_mtxs_;
+        // makes the wait in suspend() immune to spurious wake-ups
+        std::vector<std::uint8_t> resume_requested_;
 
         std::vector<pu_mutex_type> pu_mtxs_;
 
